@@ -451,25 +451,39 @@ def run_case(case, ctx):
                 outputs[f'{pn}_{v}'] = f"{pn}/{p['op']}/{v}"
                 keycols.append((f'{pn}_{v}', [(f'{pn}__{i}', p['op'], v) for i in range(p['n'])]))
         tmpl = build_population_circuit(plan_)
+        # optional extrinsic input (1-D, broadcast to all units) on an input variable of one population
+        rnd_in = random.Random(case['cseed'] + 7)
+        inputs, input_fn = None, None
+        if rnd_in.random() < 0.35:
+            pn_ = rnd_in.choice(sorted(plan_['pops']))
+            p_ = plan_['pops'][pn_]
+            # (not onto an input whose per-unit values come from `params`: whether an extrinsic input replaces or joins them
+            # is not defined by the property)
+            ins_ = sorted(v for v, d in plan_['ops'][p_['op']]['vars'].items() if d[0] == 'in' and v not in p_['params'])
+            if ins_:
+                v_ = rnd_in.choice(ins_)
+                arr_ = np.random.RandomState(case['cseed'] % (2 ** 31)).standard_normal(steps)
+                inputs = {f"{pn_}/{p_['op']}/{v_}": arr_.copy()}
+                input_fn = lambda k, pn_=pn_, p_=p_, v_=v_, arr_=arr_: {(f'{pn_}__{i}', p_['op'], v_): float(arr_[min(k, steps - 1)])
+                                                                        for i in range(p_['n'])}
+                mech['population_runs_with_extrinsic_input'] = 1
         try:
             df = tmpl.run(simulation_time=steps * dt, step_size=dt, solver='euler', outputs=dict(outputs), verbose=False, clear=True,
-                          in_place=False, float_precision='float64')
+                          in_place=False, float_precision='float64', inputs=inputs)
         except Exception as e:
             import traceback
             raise observe.Mismatch(f"loud: population circuit run raised {type(e).__name__}: {e} :: {traceback.format_exc()[-500:]}")
-        # normalise column labels (pandas artefacts when plain keys and (key, unit) tuples are mixed, see C06)
+        # normalise column labels (pandas pads shorter tuples with NaN)
         colmap = {}
         for ci, col in enumerate(df.columns):
             if isinstance(col, tuple):
                 col = tuple(x for x in col if not (isinstance(x, float) and x != x))
-                if all(isinstance(x, str) and len(x) == 1 for x in col) and ''.join(col) in outputs:
-                    col = (''.join(col),)
             else:
                 col = (col,)
             colmap[col] = ci
         allv = np.asarray(df.values, dtype=float)
         for key, ks in keycols:
-            exp = observe.ref_trajectory(ref, ks, steps, dt)
+            exp = observe.ref_trajectory(ref, ks, steps, dt, input_fn=input_fn)
             if len(ks) == 1:
                 want_cols = [(key,)] if (key,) in colmap else [(key, 0)]
             else:
